@@ -19,6 +19,7 @@ import (
 	"encoding/binary"
 	"encoding/json"
 	"fmt"
+	"hash/crc32"
 	"io"
 	"log/slog"
 	"math/rand"
@@ -30,6 +31,7 @@ import (
 	"strings"
 	"time"
 
+	"github.com/golang/snappy"
 	"github.com/hydraide/hydraide/app/core/hydra/swamp/beacon"
 	"github.com/hydraide/hydraide/app/core/hydra/swamp/chronicler"
 	v2 "github.com/hydraide/hydraide/app/core/hydra/swamp/chronicler/v2"
@@ -224,16 +226,54 @@ func flipOrSet(b []byte, lo, hi int, rng *rand.Rand) {
 	}
 }
 
+// ownEntries walks an uncompressed entry stream with the driver's OWN reading of the format (op byte, 16-bit key
+// length, key, 32-bit data length, data) so that the concretiser never depends on the code under test being right.
+// It returns the start offset, key length and data length of the first `count` records (count < 0: all), or false
+// if the stream is malformed.
+func ownEntries(stream []byte, count int) (recs [][3]int, ok bool) {
+	off := 0
+	for i := 0; (count < 0 && off < len(stream)) || i < count; i++ {
+		if len(stream)-off < 7 {
+			return nil, false
+		}
+		kl := int(binary.LittleEndian.Uint16(stream[off+1 : off+3]))
+		if kl == 0 || len(stream)-off < 3+kl+4 {
+			return nil, false
+		}
+		dl := int(binary.LittleEndian.Uint32(stream[off+3+kl : off+3+kl+4]))
+		if dl < 0 || len(stream)-off < 3+kl+4+dl {
+			return nil, false
+		}
+		recs = append(recs, [3]int{off, kl, dl})
+		off += 3 + kl + 4 + dl
+	}
+	return recs, true
+}
+
+// ownBlockHeader reads the 16-byte block header with the driver's own reading of the layout
+func ownBlockHeader(b []byte) *v2.BlockHeader {
+	le := binary.LittleEndian
+	return &v2.BlockHeader{CompressedSize: le.Uint32(b[0:4]), UncompressedSize: le.Uint32(b[4:8]), EntryCount: le.Uint16(b[8:10]),
+		Checksum: le.Uint32(b[10:14]), Flags: le.Uint16(b[14:16])}
+}
+
+// decompressOwn is the snappy decoder behind a recover (the repository's wrapper is code under test as well)
+func decompressOwn(b []byte) (out []byte, err error) {
+	defer func() {
+		if r := recover(); r != nil {
+			out, err = nil, fmt.Errorf("panic: %v", r)
+		}
+	}()
+	return snappy.Decode(nil, b)
+}
+
 // literalFlip changes one bit of the block's payload such that the compressed stream still decodes to the stated
 // length and still parses into the stated number of well-formed entries - different ones. Only the checksum can
 // tell such a block from an intact one. Returns false when no such bit is found (then any payload damage is used).
 func literalFlip(img []byte, bo, be int, rng *rand.Rand) bool {
-	bh := &v2.BlockHeader{}
-	if bh.Deserialize(img[bo:bo+v2.BlockHeaderSize]) != nil {
-		return false
-	}
+	bh := ownBlockHeader(img[bo : bo+v2.BlockHeaderSize])
 	pay := img[bo+v2.BlockHeaderSize : be]
-	orig, err := v2.DecompressBlock(pay)
+	orig, err := decompressOwn(pay)
 	if err != nil {
 		return false
 	}
@@ -243,21 +283,11 @@ func literalFlip(img []byte, bo, be int, rng *rand.Rand) bool {
 		pos := (start + k) % n
 		bit := byte(1) << rng.Intn(8)
 		pay[pos] ^= bit
-		out, err := v2.DecompressBlock(pay)
-		ok := err == nil && len(out) == int(bh.UncompressedSize) && !bytes.Equal(out, orig)
-		if ok {
-			off := 0
-			for i := 0; i < int(bh.EntryCount) && ok; i++ {
-				e := &v2.Entry{}
-				c, err := e.Deserialize(out[off:])
-				if err != nil {
-					ok = false
-				}
-				off += c
+		out, err := decompressOwn(pay)
+		if err == nil && len(out) == int(bh.UncompressedSize) && !bytes.Equal(out, orig) {
+			if _, ok := ownEntries(out, int(bh.EntryCount)); ok {
+				return true
 			}
-		}
-		if ok {
-			return true
 		}
 		pay[pos] ^= bit
 	}
@@ -484,25 +514,20 @@ func concretise(lay *layout, c Case, rng *rand.Rand, variant int) []byte {
 // reforge rebuilds block d.B consistently (sizes and checksum recomputed) around a malformed entry stream
 func reforge(img []byte, lay *layout, d Damage, rng *rand.Rand, variant int) ([]byte, int) {
 	bo, be := lay.blockOff[d.B-1], lay.blockEnd[d.B-1]
-	bh := &v2.BlockHeader{}
-	if err := bh.Deserialize(img[bo : bo+v2.BlockHeaderSize]); err != nil {
-		panic(err)
-	}
-	stream, err := v2.DecompressBlock(img[bo+v2.BlockHeaderSize : be])
+	bh := ownBlockHeader(img[bo : bo+v2.BlockHeaderSize])
+	stream, err := decompressOwn(img[bo+v2.BlockHeaderSize : be])
 	if err != nil {
 		panic(err)
 	}
 	// where the records and their fields begin
 	type rec struct{ start, keyLen, dataLen int }
 	var recs []rec
-	for off := 0; off < len(stream); {
-		e := &v2.Entry{}
-		n, err := e.Deserialize(stream[off:])
-		if err != nil {
-			panic(err)
-		}
-		recs = append(recs, rec{off, len(e.Key), len(e.Data)})
-		off += n
+	own, ok := ownEntries(stream, -1)
+	if !ok {
+		panic("reforge: the intact block's entry stream does not parse")
+	}
+	for _, r := range own {
+		recs = append(recs, rec{r[0], r[1], r[2]})
 	}
 	if d.V == "biglen" {
 		r := recs[rng.Intn(len(recs))]
@@ -537,9 +562,9 @@ func reforge(img []byte, lay *layout, d Damage, rng *rand.Rand, variant int) ([]
 		}
 		stream = stream[:p]
 	}
-	comp := v2.CompressBlock(stream)
+	comp := snappy.Encode(nil, stream)
 	nh := &v2.BlockHeader{CompressedSize: uint32(len(comp)), UncompressedSize: uint32(len(stream)), EntryCount: bh.EntryCount,
-		Checksum: v2.CalculateChecksum(comp), Flags: bh.Flags}
+		Checksum: crc32.ChecksumIEEE(comp), Flags: bh.Flags}
 	out := append([]byte{}, img[:bo]...)
 	out = append(out, nh.Serialize()...)
 	out = append(out, comp...)
